@@ -108,6 +108,23 @@ theorem C20_asdict (sel : Sel) (r : Rec) :
   · simp only [List.mem_filter, Bool.not_eq_true'] at hp
     exact hp
 
+/-- CSV files read back with the same text values: for every delimiter the sniffer may find, a file holding a header
+    of distinct field names (none starting with `_`) and rows of that many arbitrary cells is read by `CsvfileReader`
+    as exactly those fields and, per row, exactly those cell texts — quoting is undone for all cell contents. -/
+theorem C20_csv_read (d : Ch) (hd : DelimOk d) (lt : List Ch) (hlt : LtOk lt) (hdr : List Name) (rows : List Row)
+    (hsafe : ∀ row ∈ hdr :: rows, ∀ c ∈ row, SafeCell lt c)
+    (hnames : ∀ n ∈ hdr, n.head? ≠ some 95) (hnodup : hdr.Nodup) (hlen : ∀ row ∈ rows, row.length = hdr.length) :
+    csvRead d (writeRows d lt (hdr :: rows)) = some (hdr, rows.map (fun row => row.map some)) := by
+  have hfilter : hdr.filter (fun n => n.head? != some 95) = hdr := by
+    apply List.filter_eq_self.mpr
+    intro n hn
+    simpa using hnames n hn
+  simp only [csvRead, C20_csv_roundtrip d hd lt hlt (hdr :: rows) hsafe, hfilter]
+  congr 2
+  apply List.map_congr_left
+  intro row hrow
+  exact zip_lookup hdr row hnodup (hlen row hrow)
+
 /-- Line writer: block k (counting from 1) is the record's block numbered k — the counter fold has the closed
     form "k-th record gets number k" for every record sequence. -/
 theorem C20_line (sel : Sel) (verbose : Bool) (recs : List Rec) :
